@@ -208,7 +208,7 @@ func run(r *harness.Run) {
 		{"aliases", `["#a:a.org","#<&> :b"]`}, {"history_visibility", `"shared"`}, {"redacts", `"$x:a.org"`},
 		{"junk", `"j"`}, {"body", `{"a":{"b":[1,"x",null,true]}}`}, {"displayname", `"<script>é\u0001"`}, {"signed", `{"x":1}`},
 	}
-	alt := map[string]string{"membership": `null`, "users": `null`, "allow": `null`, "third_party_invite": `{"signed":null}`, "events": `{}`, "ban": `"50"`, "creator": `{"a":1}`}
+	alt := map[string][]string{"membership": {`null`}, "users": {`null`}, "allow": {`null`}, "third_party_invite": {`{"signed":null}`, `{"display_name":"d"}`, `{}`, `[]`, `{"signed":{}}`}, "events": {`{}`}, "ban": {`"50"`}, "creator": {`{"a":1}`}}
 	K := r.Pick(3, 4)
 	var subsets [][]int
 	var sub func(start int, cur []int)
@@ -273,13 +273,15 @@ func run(r *harness.Run) {
 			report(c, check(r, c))
 			// alternative values: one key at a time
 			for _, ki := range ss {
-				if a, ok := alt[contentKeys[ki][0]]; ok && len(ss) <= 2 {
-					c2 := redCase{Version: j.ver, Type: j.typ, Content: map[string]string{}}
-					for k, v := range c.Content {
-						c2.Content[k] = v
+				if as, ok := alt[contentKeys[ki][0]]; ok && len(ss) <= 2 {
+					for _, a := range as {
+						c2 := redCase{Version: j.ver, Type: j.typ, Content: map[string]string{}}
+						for k, v := range c.Content {
+							c2.Content[k] = v
+						}
+						c2.Content[contentKeys[ki][0]] = a
+						report(c2, check(r, c2))
 					}
-					c2.Content[contentKeys[ki][0]] = a
-					report(c2, check(r, c2))
 				}
 			}
 		}
